@@ -566,6 +566,53 @@ func structuralCorruptions(img []byte, ps int, res *dec.Result, t *sim.Tape) []c
 			}})
 		}
 	}
+	// referenced twice through a bucket header: a bucket's root pointer (in the leaf element that holds the bucket)
+	// redirected to the root page of another bucket - for an inline bucket (root 0) nothing else changes
+	type bref struct {
+		rootOff int // file offset of the header's root field
+		root    uint64
+		name    string
+	}
+	var brefs []bref
+	for _, id := range reach {
+		po := pageOff(id)
+		if le.Uint16(img[po+8:]) != dec.FlagLeaf {
+			continue
+		}
+		cnt := int(le.Uint16(img[po+10:]))
+		for i := 0; i < cnt; i++ {
+			el := po + dec.PageHeaderSize + i*dec.LeafElemSize
+			if el+dec.LeafElemSize > len(img) || le.Uint32(img[el:])&dec.BucketLeafFlag == 0 {
+				continue
+			}
+			pos, ks, vs := int(le.Uint32(img[el+4:])), int(le.Uint32(img[el+8:])), int(le.Uint32(img[el+12:]))
+			vo := el + pos + ks
+			if vs < dec.BucketHdrSize || vo+vs > len(img) {
+				continue
+			}
+			brefs = append(brefs, bref{vo, le.Uint64(img[vo:]), string(img[el+pos : el+pos+ks])})
+		}
+	}
+	nred := 0
+	for ai := 0; ai < len(brefs) && nred < 6; ai++ {
+		a := brefs[(ai*5+int(t.Intn(3)))%len(brefs)]
+		for bi := range brefs {
+			b := brefs[(bi+ai)%len(brefs)]
+			if b.root == 0 || b.root == a.root || b.rootOff == a.rootOff {
+				continue
+			}
+			a, b := a, b
+			kind := "paged"
+			if a.root == 0 {
+				kind = "inline"
+			}
+			out = append(out, corruption{"multi-ref", fmt.Sprintf("header of %s bucket %q: root pointer redirected to page %d, the root of bucket %q", kind, a.name, b.root, b.name), func(x []byte) {
+				le.PutUint64(x[a.rootOff:], b.root)
+			}})
+			nred++
+			break
+		}
+	}
 	_ = hwm
 	return out
 }
